@@ -17,6 +17,7 @@ def _knobs(rng, *, conc=True):
         "stay": rng.choice([0.0, 0.3, 0.5, 0.7, 0.9]),
         "state_digest": rng.random() < 0.1,
         "clock_jump": rng.choice([0.0, 0.0, 0.2]),
+        "workdir": rng.choice(["w", "w", "w", "w.v2", "my data", "résultats"]),
     }
 
 
@@ -155,6 +156,10 @@ def plan_c17(seed: int, *, faults=True) -> dict:
         "spec": spec, "inputs": inputs, "files": files, "phases": phases, "schedule": None,
     }
     _alt_phases(plan, rng)
+    # the output name may be given without its extension (documented: ".tsv" is appended)
+    for fname in list(files):
+        if fname.endswith(".tsv") and "." not in fname[:-4] and rng.random() < 0.15:
+            files[fname]["given"] = fname[:-4]
     return plan
 
 
